@@ -546,7 +546,7 @@ def check_integer_subscripts(idx, run):
 PREDICATES = [
     ('psyclone.psyir.tools.dependency_tools.DependencyTools', '_independent_0_var', True),
     ('psyclone.psyir.tools.dependency_tools.DependencyTools', '_independent_multi_subscript', True),
-    ('psyclone.psyir.tools.dependency_tools.DependencyTools', '_is_loop_carried_dependency', False),
+    ('psyclone.psyir.tools.dependency_tools.DependencyTools', '_is_loop_carried_dependency', True),
     ('psyclone.psyir.tools.dependency_tools.DependencyTools', '_array_access_parallelisable', True),
     ('psyclone.psyir.tools.dependency_tools.DependencyTools', '_is_scalar_parallelisable', True),
     ('psyclone.core.symbolic_maths.SymbolicMaths', 'never_equal', True),
